@@ -1140,12 +1140,15 @@ Proof.
   destruct (is_anchor a f); [reflexivity|]. cbn [orb]. exact IH.
 Qed.
 
-Theorem tail_path_agrees P texts k l a evs from :
+(* any counting rule the acceptance test may use, as long as it is the sound one (messages at or before the cut) *)
+Theorem tail_path_rule_agrees r P texts k l a evs from :
+  tail_count_sound r = true ->
   incr l -> wf_refs l = true ->
-  tail_path (p_limit P) k l a = Some (evs, from) ->
+  tail_path_with r (p_limit P) k l a = Some (evs, from) ->
   Some (compile_with P texts evs (filter is_ckpt l) from a) = compile P texts l a.
 Proof.
-  intros S W H. unfold tail_path in H. cbv zeta in H.
+  intros R S W H. destruct r; [|discriminate R]. clear R.
+  unfold tail_path_with, tail_message_count in H. cbv zeta in H.
   destruct (tail_cut (mr_tail k l) (head_seq l) a) as [fr|] eqn:Tc; [|discriminate].
   destruct (mr_tail_complete k l || (p_limit P <=? count_msgs_upto fr (mr_tail k l))%nat) eqn:Acc; [|discriminate].
   inversion H; subst evs from. clear H.
@@ -1160,6 +1163,26 @@ Proof.
   - left. apply Hc. unfold mr_tail_complete in Cm. apply Nat.leb_le in Cm. exact Cm.
   - right. apply Nat.leb_le in Ct. exact Ct.
 Qed.
+
+Theorem tail_path_agrees P texts k l a evs from :
+  incr l -> wf_refs l = true ->
+  tail_path (p_limit P) k l a = Some (evs, from) ->
+  Some (compile_with P texts evs (filter is_ckpt l) from a) = compile P texts l a.
+Proof. exact (tail_path_rule_agrees CountUpToCut P texts k l a evs from eq_refl). Qed.
+
+(* counting every message of the scanned tail (also those after the cut) is unsound: 40 messages, a tail of the newest
+   20 frames, the anchor the 5th message of that tail: accepted (20 >= 16), and the bundle holds 5 messages where the
+   full replay gives 16.  (Seeded change C08-2; replayed on the implementation by the window-boundary sweeps of rv c08.) *)
+Definition count_all_log : log := mkf 0 BOther :: plain_msgs 40 1.
+Definition count_all_tail : log := plain_msgs 20 21.
+Lemma tail_count_all_refuted :
+  valid_log count_all_log = true /\ wf_refs count_all_log = true
+  /\ tail_path_with CountAll 16 20 count_all_log 25 = Some (count_all_tail, 25)
+  /\ tail_path_with CountUpToCut 16 20 count_all_log 25 = None
+  /\ users (Some (compile_with code16 no_texts count_all_tail (filter is_ckpt count_all_log) 25 25)) = [21; 22; 23; 24; 25]
+  /\ users (compile code16 no_texts count_all_log 25) = map N.of_nat (seq 10 16)
+  /\ Some (compile_with code16 no_texts count_all_tail (filter is_ckpt count_all_log) 25 25) <> compile code16 no_texts count_all_log 25.
+Proof. conjs; try (vm_compute; reflexivity). vm_compute. discriminate. Qed.
 
 (* the window loop keeps a prefix (in scan order) of the frames at or before the cut, all of them or up to the
    limit-th message *)
